@@ -124,7 +124,7 @@ func checkC09(p *core.Program, r *core.Report) {
 				other = bo.X
 			}
 			if other != nil {
-				if u, ok := other.(*ssa.UnOp); ok && u.Op == token.MUL {
+				if u, ok := core.Canon(other).(*ssa.UnOp); ok && u.Op == token.MUL {
 					return "M", truth == (bo.Op == token.NEQ), u.X
 				}
 			}
@@ -147,7 +147,92 @@ func checkC09(p *core.Program, r *core.Report) {
 	}
 	npaths, napprove, nerr := 0, 0, 0
 	bad := map[string]string{}
-	complete := core.EnumPathItems(h, 4096, func(items []core.PathItem, blocks []*ssa.BasicBlock, ret *ssa.Return) {
+	// a condition that is the result of a boolean helper of the package is replaced by the conditions along the
+	// helper's own paths that yield that result (its parameters bound to the call while they are evaluated)
+	type xitem struct {
+		core.PathItem
+		bind *ssa.Call
+	}
+	atomOfX := func(it xitem) (string, bool, ssa.Value) {
+		if it.bind != nil {
+			undo := core.BindCall(it.bind)
+			defer undo()
+		}
+		return atomOf(it.Cond, it.Truth)
+	}
+	helperPaths := func(call *ssa.Call, want bool) ([][]xitem, bool) {
+		t := call.Call.StaticCallee()
+		if t == nil || t.Blocks == nil || p.PkgShort(t) != "ship" || t.Signature.Results().Len() != 1 {
+			return nil, false
+		}
+		if b, ok := t.Signature.Results().At(0).Type().Underlying().(*types.Basic); !ok || b.Kind() != types.Bool {
+			return nil, false
+		}
+		var out [][]xitem
+		ok := core.EnumPathItems(t, 256, func(items2 []core.PathItem, blocks2 []*ssa.BasicBlock, ret2 *ssa.Return) {
+			var path []xitem
+			for _, it := range items2 {
+				if it.Cond != nil {
+					path = append(path, xitem{it, call})
+				}
+			}
+			rv := core.ResultOf(ret2, 0)
+			for i := 0; i < 4; i++ {
+				if phi, isPhi := rv.(*ssa.Phi); isPhi {
+					if nv := core.PhiOnPath(phi, blocks2); nv != nil {
+						rv = nv
+						continue
+					}
+				}
+				break
+			}
+			if k := core.ConstOf(rv); k != nil && k.Kind() == constant.Bool {
+				if constant.BoolVal(k) != want {
+					return
+				}
+			} else {
+				truth := want
+				for {
+					u, isNot := rv.(*ssa.UnOp)
+					if !isNot || u.Op != token.NOT {
+						break
+					}
+					rv, truth = u.X, !truth
+				}
+				path = append(path, xitem{core.PathItem{Cond: rv, Truth: truth}, call})
+			}
+			out = append(out, path)
+		})
+		return out, ok
+	}
+	expand := func(items []core.PathItem) [][]xitem {
+		lists := [][]xitem{nil}
+		for _, it := range items {
+			var subs [][]xitem
+			if call, isCall := it.Cond.(*ssa.Call); it.Cond != nil && isCall {
+				if hp, ok := helperPaths(call, it.Truth); ok {
+					subs = hp
+				}
+			}
+			if subs == nil {
+				subs = [][]xitem{{xitem{it, nil}}}
+			}
+			var next [][]xitem
+			for _, pre := range lists {
+				for _, sub := range subs {
+					n := append(append([]xitem{}, pre...), sub...)
+					next = append(next, n)
+				}
+			}
+			lists = next
+			if len(lists) > 512 {
+				break
+			}
+		}
+		return lists
+	}
+	var process func(items []xitem)
+	process = func(items []xitem) {
 		lit := map[string]bool{}
 		known := map[string]bool{}
 		contradiction := false
@@ -155,7 +240,7 @@ func checkC09(p *core.Program, r *core.Report) {
 		approveAt, reportAt, storeAt, errAt := -1, -1, -1, -1
 		for i, it := range items {
 			if it.Cond != nil {
-				a, val, _ := atomOf(it.Cond, it.Truth)
+				a, val, _ := atomOfX(it)
 				if a != "" {
 					if known[a] && lit[a] != val {
 						contradiction = true
@@ -198,7 +283,7 @@ func checkC09(p *core.Program, r *core.Report) {
 			if it.Cond == nil {
 				continue
 			}
-			a, val, _ := atomOf(it.Cond, it.Truth)
+			a, val, _ := atomOfX(it)
 			switch a {
 			case "E":
 				eKnown, eVal = true, val
@@ -237,6 +322,11 @@ func checkC09(p *core.Program, r *core.Report) {
 			if errAt < 0 || approveAt >= 0 {
 				bad["mismatch-not-rejected"] = "a path with a missing or mismatching SHIP ID does not end in the error exit"
 			}
+		}
+	}
+	complete := core.EnumPathItems(h, 4096, func(items []core.PathItem, blocks []*ssa.BasicBlock, ret *ssa.Return) {
+		for _, xs := range expand(items) {
+			process(xs)
 		}
 	})
 	r.Counts["handler_paths"] = npaths
@@ -342,6 +432,17 @@ func checkC09(p *core.Program, r *core.Report) {
 		})
 		if n == 0 {
 			r.Fail(R3, "hub.ReportServiceShipID forwards (ski, shipID)", p.Pos(hr.Pos()), "the hub never tells the application the reported SHIP ID")
+		} else {
+			must := core.NewMust(p, 2, func(in ssa.Instruction) bool {
+				_, isCall := in.(*ssa.Call)
+				return isCall && core.IsInvokeOf(in, mUp)
+			})
+			key := "hub.ReportServiceShipID forwards on every path"
+			if bad := core.MustPass(hr, nil, must.Instr, nil); bad != nil {
+				r.Fail(R3, key, p.Pos(bad.Pos()), "a path of the hub's ReportServiceShipID returns without telling the application (e.g. a per-SKI 'already reported' memo): a later handshake of the same SKI sets the remote device up without the SHIP ID having been reported")
+			} else {
+				r.OK(R3, key, p.Pos(hr.Pos()), "every report of the SHIP layer reaches the application")
+			}
 		}
 	}
 
